@@ -15,8 +15,9 @@ RULE = ('As C03 (overflow-provoking capacities included) plus capture time T (de
         'overflow-free, and every output whose overflow indicator was clear has the identical waveform in both runs; (c) abuf[a, lane] = weighted '
         'rise/fall counts recomputed from the produced waveforms times the number of propagations. non-trivial: a finite T that separates two '
         'transitions of some output, or an output with clear indicator next to one with set indicator, or a shared accumulator with non-zero weights '
-        'and a counted transition; distinct by SHA-1 of the case.')
-ASSUMPTIONS = ['c_reuse off for (c) so that produced waveforms can be read back', 'sd = 0 (no sampled capture values involved)']
+        'and a counted transition; distinct by SHA-1 of the case. (d) oracle (a) again after generated waveforms (timestamps in any order, any count up to the '
+        'capacity, either terminator) were written straight into the output regions of a propagated simulator.')
+ASSUMPTIONS = ['c_reuse off for (c) so that produced waveforms can be read back', 'sd = 0, except sd = 0.5 with capture times far before / after every transition (all captures certain; uncertain captures raise OverflowError in the pure-Python fallback, observation O5)']
 
 
 @st.composite
@@ -30,8 +31,10 @@ def cases(draw, tier):
                                                min_size=4, max_size=12)))
     return dict(nl=nl, lanes=lanes, waves=waves, dpool=draw(W.DELAY_POOL), caps=draw(W.CAPS), f64=draw(st.booleans()),
                 strip_forks=draw(st.booleans()), cuda=draw(st.sampled_from([False, False, True])),
-                ctime=draw(st.one_of(st.none(), st.integers(-8, 700), st.tuples(st.integers(0, 40), st.integers(-1, 1)))),
-                actrl=[list(x) for x in actrl] if actrl else None, props=draw(st.integers(1, 2)))
+                ctime=draw(st.one_of(st.none(), st.integers(-8, 700), st.tuples(st.integers(0, 40), st.integers(-1, 1)), st.sampled_from(['far-', 'far+']))),
+                actrl=[list(x) for x in actrl] if actrl else None, props=draw(st.integers(1, 2)),
+                owave=draw(st.one_of(st.none(), st.lists(st.tuples(st.integers(0, 1), st.lists(st.integers(0, 700), max_size=6), st.booleans()),
+                                                         min_size=1, max_size=4))))
 
 
 def bound(nl, waves, lane):
@@ -78,40 +81,51 @@ def prop(case):
         T = (alltimes[ct[0] % len(alltimes)] + ct[1] / W.GRID) if alltimes else 1.0
     elif ct is None:
         T = None
+    elif isinstance(ct, str):             # far before / far after every transition, with an uncertain capture time (sd > 0): every capture is certain
+        T = -10000.0 if ct == 'far-' else 100000.0
     else:
         T = ct / W.GRID
-    if T is None:
-        sim.c_to_s()
-    else:
-        sim.c_to_s(time=T)
+    SD = 0.5 if isinstance(ct, str) else 0.0
+
+    def capture(s_):
+        if T is None: s_.c_to_s()
+        elif SD: s_.c_to_s(time=T, sd=SD, seed=case['props'])
+        else: s_.c_to_s(time=T)
+    capture(sim)
     separates = False
     n_clear = n_set = 0
     skipped_nonmonotone = 0
-    for row, what in rows:
-        for lane in range(lanes):
-            w = outwave(sim, row, lane)
-            if not w['ok']:
-                raise Violation(f'{what} lane {lane}: malformed output waveform ({w["why"]})')
-            got = [float(sim.s[k, row, lane]) for k in range(3, 11)]
-            eat = min(w['times']) if w['times'] else float(W.TMAX)
-            lst = max(w['times']) if w['times'] else float(W.TMIN)
-            exp = {3: w['init'], 4: eat, 5: lst, 6: w['final'], 10: int(w['ovl'])}
-            for k, e in exp.items():
-                if got[k - 3] != float(e):
-                    raise Violation(f'{what} lane {lane}: s[{k}] = {got[k - 3]}, waveform (init {w["init"]}, times {w["times"]}, ovl {w["ovl"]}) says {e}')
-            mono = all(w['times'][i] < w['times'][i + 1] for i in range(len(w['times']) - 1))
-            if mono:
-                tt = float('inf') if T is None else T
-                val = w['init'] ^ (sum(1 for t in w['times'] if t < tt) & 1)
-                if got[4] != val or got[5] != val:
-                    raise Violation(f'{what} lane {lane}: value captured at T={T}: s[7]={got[4]}, s[8]={got[5]}, waveform (init {w["init"]}, '
-                                    f'times {w["times"]}) has value {val} just before T')
-                if T is not None and any(t < T for t in w['times']) and any(t >= T for t in w['times']):
-                    separates = True
-            else:
-                skipped_nonmonotone += 1
-            if w['ovl']: n_set += 1
-            else: n_clear += 1
+
+    def summarise(sim, tag=''):
+        nonlocal separates, n_clear, n_set, skipped_nonmonotone
+        for row, what in rows:
+            for lane in range(lanes):
+                w = outwave(sim, row, lane)
+                if not w['ok']:
+                    raise Violation(f'{tag}{what} lane {lane}: malformed output waveform ({w["why"]})')
+                got = [float(sim.s[k, row, lane]) for k in range(3, 11)]
+                eat = min(w['times']) if w['times'] else float(W.TMAX)
+                lst = max(w['times']) if w['times'] else float(W.TMIN)
+                exp = {3: w['init'], 4: eat, 5: lst, 6: w['final'], 10: int(w['ovl'])}
+                for k, e in exp.items():
+                    if got[k - 3] != float(e):
+                        raise Violation(f'{tag}{what} lane {lane}: s[{k}] = {got[k - 3]}, waveform (init {w["init"]}, times {w["times"]}, ovl {w["ovl"]}) says {e}')
+                mono = all(w['times'][i] < w['times'][i + 1] for i in range(len(w['times']) - 1))
+                if mono:
+                    tt = float('inf') if T is None else T
+                    val = w['init'] ^ (sum(1 for t in w['times'] if t < tt) & 1)
+                    if got[4] != val or got[5] != val:
+                        raise Violation(f'{tag}{what} lane {lane}: value captured at T={T}: s[7]={got[4]}, s[8]={got[5]}, waveform (init {w["init"]}, '
+                                        f'times {w["times"]}) has value {val} just before T')
+                    if T is not None and any(t < T for t in w['times']) and any(t >= T for t in w['times']):
+                        separates = True
+                else:
+                    skipped_nonmonotone += 1
+                if w['ovl']: n_set += 1
+                else: n_clear += 1
+
+    summarise(sim)
+    sim_clear, sim_set = n_clear, n_set         # counts of the simulated waveforms only (the written ones of (d) come later)
     # (b) unlimited capacity
     B = max(bound(nl, case['waves'], lane) for lane in range(lanes))
     checked_b = False
@@ -162,15 +176,33 @@ def prop(case):
             if not np.array_equal(abuf.astype(np.int64), exp):
                 raise Violation(f'abuf = {abuf.tolist()}, recomputed from the waveforms: {exp.tolist()} ({case["props"]} propagation(s))')
             shared = any(users.get(a, 0) >= 2 and counted.get(a) for a in users)
+    # (d) the same summary for waveforms written straight into the output regions (any order of timestamps, any count up to the capacity)
+    injected_nonmono = False
+    if case.get('owave'):
+        sim3 = make(case, b, W.caps_for(nlines, case['caps']), None)
+        sim3.c_prop()
+        for row, what in rows:
+            loc = int(sim3.c_locs[sim3.ppo_offset + row]); cap = int(sim3.c_caps[sim3.ppo_offset + row])
+            for lane in range(lanes):
+                init, times, ovl = case['owave'][(row + 3 * lane) % len(case['owave'])]
+                ent = ([W.TMIN] if init else []) + [np.float32(t / W.GRID) for t in times]
+                ent = ent[:cap - 1] + [W.TMAX_OVL if ovl else W.TMAX]
+                sim3.c[loc:loc + len(ent), lane] = ent
+                ts = [float(x) for x in ent[(1 if init else 0):-1]]
+                if any(ts[i] >= ts[i + 1] for i in range(len(ts) - 1)): injected_nonmono = True
+        capture(sim3)
+        summarise(sim3, 'waveform written into the output region: ')
     labels = []
+    if injected_nonmono: labels.append('written_waveform_not_increasing')
     if separates: labels.append('T_separates_transitions')
-    if n_clear and n_set: labels.append('mixed_overflow_flags')
-    if n_set: labels.append('overflow')
+    if sim_clear and sim_set: labels.append('mixed_overflow_flags')
+    if sim_set: labels.append('overflow')
     if shared: labels.append('shared_accumulator')
     if case['cuda']: labels.append('cuda_path')
+    if SD: labels.append('sd>0_certain_capture')
     if skipped_nonmonotone: labels.append('nonmonotone_skipped')
     if checked_b: labels.append('unlimited_compared')
-    return Obs(separates or (n_clear and n_set and checked_b) or shared, labels, checks=len(rows) * lanes)
+    return Obs(separates or (sim_clear and sim_set and checked_b) or shared, labels, checks=len(rows) * lanes)
 
 
 PARTS = [Part('capture', prop, strategy=cases, quick=(8, 250), thorough=(16, 8000))]
